@@ -117,6 +117,15 @@ theorem setUsrFieldIL_frame {σ σ' : MState} {args : List ILPure} {vs : List Va
     · simp at h
   · simp at h
 
+/-- the specification-level `hex_get_usr_field` sets `ret_val` and nothing else -/
+theorem getUsrFieldIL_frame {σ σ' : MState} {args : List ILPure}
+    (h : getUsrFieldIL σ args = .ok σ') : Frame [.loc "ret_val"] σ σ' := by
+  unfold getUsrFieldIL at h
+  split at h
+  · injection h with h; subst h
+    exact Frame.setLocal σ _ _
+  · simp at h
+
 /-! ## the frame lemma -/
 
 theorem execIL_frame_aux (ms : MacroSem) (subs : SubEnv) (f : Nat) :
@@ -207,7 +216,11 @@ theorem execIL_frame_aux (ms : MacroSem) (subs : SubEnv) (f : Nat) :
             simp only at h ⊢
             split at h
             · next hf => rw [if_pos hf]; exact setUsrFieldIL_frame h
-            · simp at h
+            · next hf =>
+              rw [if_neg hf]
+              split at h
+              · next hg => rw [if_pos hg]; exact getUsrFieldIL_frame h
+              · simp at h
           | some pb =>
             obtain ⟨ps, body⟩ := pb
             rw [hl] at h
